@@ -214,6 +214,35 @@ def enum_small(nmax: int) -> list[list[dict]]:
     return res
 
 
+def enum_trait_glue() -> list[list[dict]]:
+    """Directed family: a trait declares m0 (and a sub-trait may override it); a class implementing it, with or without a
+    plain base class, overrides m0 with the same / a more general signature (glue in the TRAIT vtable), and a subclass
+    overrides or inherits again."""
+    out = []
+    opts = (None, 0, 1, 2)
+    for vt in (0, 1):
+        for vt2 in opts:                      # sub-trait T2(T): overrides m0 or not; None also = no sub-trait when flag below
+            for sub in (False, True):
+                if not sub and vt2 is not None:
+                    continue
+                for with_base in (False, True):
+                    for vc in opts:
+                        for vd in opts:
+                            h = [{"trait": True, "base": None, "traits": [], "methods": {"m0": vt, "m1": 0}}]
+                            tix = 0
+                            if sub:
+                                h.append({"trait": True, "base": None, "traits": [0], "methods": {} if vt2 is None else {"m0": vt2}})
+                                tix = 1
+                            base = None
+                            if with_base:
+                                h.append({"trait": False, "base": None, "traits": [], "methods": {"m2": 0}})
+                                base = len(h) - 1
+                            h.append({"trait": False, "base": base, "traits": [tix], "methods": {} if vc is None else {"m0": vc}})
+                            h.append({"trait": False, "base": len(h) - 1, "traits": [], "methods": {} if vd is None else {"m0": vd, "m1": 1}})
+                            out.append(h)
+    return out
+
+
 def random_hierarchy(rng: vlib.Rng) -> list[dict]:
     n = rng.randint(3, 6)
     h: list[dict] = []
@@ -247,6 +276,9 @@ def vtable_stage(ctx: vlib.Ctx, exe: str | None, tmp: str) -> list[tuple[int, li
     if ctx.quick:
         small = small[::8]
     cands += small
+    tg = enum_trait_glue()
+    ctx.cov["vt_trait_glue_family"] = len(tg)
+    cands += tg[::4] if ctx.quick else tg
     if not ctx.quick:
         four = enum_small(4)
         ctx.cov["vt_four_enumerated"] = len(four)
@@ -338,7 +370,7 @@ def vtable_stage(ctx: vlib.Ctx, exe: str | None, tmp: str) -> list[tuple[int, li
     # real tables -> model; compare
     lines = []
     meta = []
-    nclasses = nontriv = 0
+    nclasses = nontriv = glue_main = glue_trait = trait_tables = 0
     for k in idxs:
         cl = by_h.get(k, [])
         for c in cl:
@@ -387,6 +419,10 @@ def vtable_stage(ctx: vlib.Ctx, exe: str | None, tmp: str) -> list[tuple[int, li
                     ctx.broke("C", "vtable entry whose method is neither a class method nor a glue method", str(e))
                 if e[2][0] == "glue" and e[2][-1] != 1:
                     ctx.broke("C", "glue method contract: glue of class d for (t, n) must call d's method n", str(e))
+        for c in real:
+            glue_main += sum(1 for e in c["entries"] if e[2][0] == "glue")
+            glue_trait += sum(1 for _, es in c["trait_vtables"] for e in es if e[2][0] == "glue")
+            trait_tables += len(c["trait_vtables"])
         toks, names = encode_table(rt)
         lines.append("vt " + toks)
         meta.append((k, real, names))
@@ -413,6 +449,9 @@ def vtable_stage(ctx: vlib.Ctx, exe: str | None, tmp: str) -> list[tuple[int, li
     ctx.cov["vt_classes_compared"] = nclasses
     ctx.cov["vt_nontrivial"] = nontriv
     ctx.cov["vt_mismatches"] = mism
+    ctx.cov["vt_trait_vtables_compared"] = trait_tables
+    ctx.cov["vt_glue_entries_in_class_vtables"] = glue_main
+    ctx.cov["vt_glue_entries_in_trait_vtables"] = glue_trait
     # dispatch queries: slot through p's layout on c's table vs MRO lookup (theorem instance), and vs CPython's lookup
     qlines = []
     qmeta = []
@@ -658,6 +697,114 @@ def gen_pass_programs(rng: vlib.Rng, n: int) -> list[dict]:
     return items
 
 
+def synth_ir(rng: vlib.Rng, n_random: int) -> list[dict]:
+    """Hand-built IR for shapes irbuild (currently) does not emit but the passes are written to handle:
+    NEGATED branches on flag registers, 1-3 predecessors, flag branch in a loop, cases where flag elimination must
+    not fire; for copy propagation: chains, registers assigned in both branches, loop-carried registers, copies of
+    arguments that are reassigned later, address-taken registers.  The real passes run on them in the child."""
+    funcs: list[dict] = []
+    k = 0
+    for neg in (0, 1):
+        for npred in (1, 2, 3):
+            for variant in ("plain", "noise", "flag-used-twice", "loop", "via-register", "direct-edge"):
+                k += 1
+                args = [["a", "i64"], ["b", "i64"], ["c0", "bool"], ["c1", "bool"]]
+                regs = [["f", "bool"], ["g", "bool"], ["x", "i64"]]
+                join = npred + 2           # block index of the flag branch
+                t_blk, f_blk = join + 1, join + 2
+                blocks: list[list] = []
+                # dispatch block(s)
+                if npred == 1:
+                    blocks.append([["goto", 1]])
+                    blocks.append([])      # filler so that predecessor blocks start at 2 (unused, unreachable)
+                    blocks[1].append(["goto", 2])
+                elif npred == 2:
+                    blocks.append([["branch", "c0", 2, 3]])
+                    blocks.append([["goto", 2]])
+                else:
+                    blocks.append([["branch", "c0", 2, 1]])
+                    blocks.append([["branch", "c1", 3, 4]])
+                for i in range(npred):
+                    ops: list[list] = [["cmp", f"r{i}", "a", f"#{i + 1}"]]
+                    if variant == "via-register":
+                        ops += [["assign", "g", f"r{i}"], ["assign", "f", "g"]]
+                    else:
+                        ops.append(["assign", "f", f"r{i}"])
+                    if variant == "noise" and i == 0:
+                        ops.append(["intop", f"n{i}", "a", "b"])
+                    ops.append(["goto", join])
+                    blocks.append(ops)
+                if variant == "direct-edge":
+                    # another way into the flag branch that does not assign the flag right before
+                    blocks[0] = [["assign", "f", "c1"], ["intop", "z0", "a", "b"]] + blocks[0]
+                    blocks[1] = [["goto", join]] if npred == 1 else blocks[1]
+                blocks.append([["branch", "f", t_blk, f_blk, neg]])
+                if variant == "loop":
+                    blocks.append([["intop", "a2", "a", "#1"], ["assign", "a", "a2"], ["cmp", "lc", "a", "b"], ["branch", "lc", 0, f_blk]])
+                elif variant == "flag-used-twice":
+                    blocks.append([["branch", "f", f_blk, f_blk]])
+                else:
+                    blocks.append([["return", "#2"]])
+                blocks.append([["return", "#4"]])
+                funcs.append({"name": f"flag_{variant}_{npred}_{neg}", "args": args, "regs": regs, "blocks": blocks})
+    # copy-propagation shapes
+    A = [["a", "i64"], ["b", "i64"], ["c0", "bool"]]
+    R = [["x", "i64"], ["y", "i64"], ["z", "i64"], ["i", "i64"]]
+    cp = [
+        ("chain", [[["assign", "x", "a"], ["assign", "y", "x"], ["assign", "z", "y"], ["intop", "t", "z", "x"], ["return", "t"]]]),
+        ("both-branches", [[["branch", "c0", 1, 2]], [["assign", "x", "a"], ["goto", 3]], [["assign", "x", "b"], ["goto", 3]],
+                           [["assign", "y", "x"], ["intop", "t", "y", "x"], ["return", "t"]]]),
+        ("loop-carried", [[["assign", "i", "#0"], ["goto", 1]], [["intop", "t", "i", "#1"], ["assign", "i", "t"], ["assign", "y", "t"],
+                                                                 ["cmp", "c", "y", "b"], ["branch", "c", 1, 2]], [["return", "y"]]]),
+        ("arg-reassigned", [[["assign", "x", "a"], ["intop", "t", "a", "#1"], ["assign", "a", "t"], ["intop", "u", "x", "a"], ["return", "u"]]]),
+        ("src-reassigned", [[["assign", "y", "b"], ["assign", "x", "y"], ["assign", "y", "a"], ["intop", "u", "x", "y"], ["return", "u"]]]),
+        ("address-taken", [[["assign", "x", "a"], ["addr", "p", "x"], ["assign", "y", "x"], ["loadmem", "m", "p"], ["intop", "u", "y", "m"], ["return", "u"]]]),
+        ("copy-of-address-taken", [[["assign", "x", "a"], ["assign", "y", "x"], ["addr", "p", "y"], ["loadmem", "m", "p"], ["intop", "u", "y", "m"], ["return", "u"]]]),
+        ("literal", [[["assign", "x", "#7"], ["assign", "y", "x"], ["intop", "u", "y", "a"], ["branch", "c0", 1, 2]], [["return", "u"]], [["return", "x"]]]),
+        ("copy-in-loop", [[["goto", 1]], [["intop", "t", "a", "b"], ["assign", "x", "t"], ["cmp", "c", "x", "b"], ["branch", "c", 1, 2]], [["return", "x"]]]),
+        ("assigned-twice-dest", [[["assign", "x", "a"], ["intop", "t", "x", "#1"], ["assign", "x", "t"], ["return", "x"]]]),
+    ]
+    for nm, blocks in cp:
+        funcs.append({"name": "cp_" + nm, "args": A, "regs": R, "blocks": blocks})
+    # random straight-line/diamond mixes of the same building blocks
+    for j in range(n_random):
+        regs = ["x", "y", "z", "i"]
+        vals = ["a", "b", "#3"]
+        blks: list[list[list]] = [[], [], [], []]
+        cnt = 0
+        for bi in range(4):
+            for _ in range(rng.randint(1, 4)):
+                c = rng.random()
+                if c < 0.5:
+                    d = rng.choice(regs)
+                    blks[bi].append(["assign", d, rng.choice(vals + [r for r in regs if r in vals])])
+                    if d not in vals:
+                        vals.append(d)
+                else:
+                    cnt += 1
+                    blks[bi].append(["intop", f"t{cnt}", rng.choice(vals), rng.choice(vals)])
+                    vals.append(f"t{cnt}")
+            if bi == 0:
+                # registers must be defined on every path: only entry-block values may be used later
+                safe = list(vals)
+        blks[0].append(["branch", "c0", 1, 2])
+        blks[1].append(["goto", 3])
+        blks[2].append(["goto", 3])
+        # keep only uses of values defined in block 0 or in the same block (well-formed IR)
+        def fix(bi: int, allowed: list[str]) -> None:
+            seen = list(allowed)
+            for op in blks[bi]:
+                for q in range(2, len(op)):
+                    if isinstance(op[q], str) and not op[q].startswith("#") and op[q] not in seen:
+                        op[q] = rng.choice(seen)
+                seen.append(op[1])
+        for bi in (1, 2, 3):
+            fix(bi, safe)
+        blks[3].append(["return", rng.choice(safe)])
+        funcs.append({"name": f"cp_random_{j}", "args": A, "regs": R, "blocks": blks})
+    return funcs
+
+
 def pass_stage(ctx: vlib.Ctx, exe: str | None, tmp: str) -> None:
     rng = vlib.Rng(ctx.seed, "c05pass")
     items = list_cases(vlib.REPO, ctx.quick)
@@ -668,6 +815,9 @@ def pass_stage(ctx: vlib.Ctx, exe: str | None, tmp: str) -> None:
         rng.shuffle(rest)
         items = opt + rest[:90]
     items += gen_pass_programs(rng, ctx.n(4, 40))
+    synth = synth_ir(rng, ctx.n(30, 300))
+    ctx.cov["pass_synthetic_ir_functions"] = len(synth)
+    items.append({"kind": "synth", "name": "synthetic-ir", "funcs": synth})
     nj = min(vlib.NPROC, 14)
     # balance: round-robin
     jobs = [items[i::nj] for i in range(nj)]
@@ -758,6 +908,29 @@ def pass_stage(ctx: vlib.Ctx, exe: str | None, tmp: str) -> None:
             break
 
 
+def diff_hierarchies(ctx: vlib.Ctx, exe: str | None, n: int) -> list[tuple[int, list[dict]]]:
+    """Random hierarchies with traits for the run-time dispatch part of the differential search (mypy-acceptable,
+    and not in the class on which compute_vtable is predicted to raise)."""
+    if exe is None:
+        return []
+    rng = vlib.Rng(ctx.seed, "c05diffhier")
+    out: list[tuple[int, list[dict]]] = []
+    tries = 0
+    while len(out) < n and tries < 40 * n:
+        tries += 1
+        h = random_hierarchy(rng)
+        r = py_mro(h)
+        if r is None or not valid_for_mypy(h, r[0]):
+            continue
+        if not any(c["traits"] for c in h) or sum(len(c["methods"]) for c in h) < 3:
+            continue
+        o = run_driver(exe, ["vt " + encode_table(predicted_table(h, r[0]))[0]])[0]
+        if o.endswith("none") or not o.startswith("wf=1"):
+            continue
+        out.append((9000 + len(out), h))
+    return out
+
+
 # =========================================================================================== driver
 def run(ctx: vlib.Ctx) -> None:
     ctx.cov["rule"] = ("(a) class hierarchies: every 3-class shape over one method name (trait flag x legal parent set x absent/sig A/sig B) "
@@ -772,10 +945,12 @@ def run(ctx: vlib.Ctx) -> None:
         "how emitted C uses the tables (CPY_GET_METHOD / CPY_GET_METHOD_TRAIT index by the static class's slot into the run-time class's table) is read off emitfunc.py/emitclass.py, not modelled",
         "IR semantics: ops other than Assign/Goto/Branch/Return are uninterpreted functions of (source values, world); writes through LoadAddress pointers to registers are not modelled (validator side condition instead); an op is identified by its class + all non-Value attributes",
         "validator hints (replacement map, available-copy annotations, flag->label map) are computed in Python and are untrusted: the theorems quantify over them",
+        "core (c) theorems are BOUNDED: every parameter list of <= 4 parameters x every call with <= 5 positional and <= 3 keyword actuals, enumerated completely inside Coq (vm_compute); C12/Bind.v cpython_bind is the accept/reject reference; TypeError message texts are not compared (they differ, examples in evidence)",
         "extraction: ExtrOcamlBasic only; OCaml driver tools/ocaml/c05_driver.ml (I/O only)",
         "CPython 3.12.1 is the oracle for run-time behaviour; gcc builds with -Wno-tautological-compare",
     ]
     ok = ctx.prove("C05/Properties.v", ["C05"])
+    ctx.prove("C05/PropertiesC.v", ["C05", "C12"])
     exe = vlib.build_extracted("c05", "C05/Extract.v", "tools/ocaml/c05_driver.ml")
     if exe is None:
         ctx.broke("C", "extraction", "extracted model does not build")
@@ -783,17 +958,12 @@ def run(ctx: vlib.Ctx) -> None:
     hiers: list = []
     try:
         from harness import C05_diff
-        with ThreadPoolExecutor(max_workers=3) as ex:
-            # the three stages are independent; each parallelises internally
-            fv = ex.submit(vtable_stage, ctx, exe, tmp)
-            fp = ex.submit(pass_stage, ctx, exe, tmp)
-            try:
-                hiers = fv.result()
-            except Exception:  # noqa
-                import traceback
-                ctx.broke("C", "vtable stage", traceback.format_exc())
-            fd = ex.submit(C05_diff.run_diff, ctx, hiers)
-            for f, nm in ((fp, "pass stage"), (fd, "diff stage")):
+        hiers = diff_hierarchies(ctx, exe, ctx.n(12, 96))
+        with ThreadPoolExecutor(max_workers=4) as ex:
+            # the four stages are independent; each parallelises internally
+            futs = [(ex.submit(vtable_stage, ctx, exe, tmp), "vtable stage"), (ex.submit(pass_stage, ctx, exe, tmp), "pass stage"),
+                    (ex.submit(C05_diff.run_diff, ctx, hiers), "diff stage"), (ex.submit(argparse_stage, ctx, exe, tmp), "argparse stage")]
+            for f, nm in futs:
                 try:
                     f.result()
                 except Exception:  # noqa
@@ -820,3 +990,178 @@ def replay(ctx: vlib.Ctx, path: str) -> None:
             ctx.violation("replay", "validator rejects the recorded pair", r)
     else:
         run(ctx)
+
+
+# =========================================================================================== (c) wrapper argument parsing
+K_POS, K_OPT, K_STAR, K_NAMED, K_STAR2, K_NAMED_OPT = 0, 1, 2, 3, 4, 5
+
+
+def arg_sigs(n: int) -> list[list[tuple[int, int, bool]]]:
+    """Every `def` parameter list with <= n parameters: [(kind, name, positional-only)], names 1.."""
+    out = []
+    for a in range(n + 1):
+        for b in range(n + 1):
+            for st in (False, True):
+                for nk in range(n + 1):
+                    for kw in itertools.product((K_NAMED, K_NAMED_OPT), repeat=nk):
+                        for st2 in (False, True):
+                            if a + b + st + nk + st2 > n:
+                                continue
+                            for q in range(a + b + 1):
+                                ks = [((K_POS if i < a else K_OPT), i < q) for i in range(a + b)]
+                                ks += [(K_STAR, False)] if st else []
+                                ks += [(k, False) for k in kw]
+                                ks += [(K_STAR2, False)] if st2 else []
+                                out.append([(k, i + 1, po) for i, (k, po) in enumerate(ks)])
+    return out
+
+
+def arg_calls(n: int) -> list[tuple[int, tuple[int, ...]]]:
+    pool = list(range(1, n + 1)) + [99]
+    kws = [()]
+    for m in (1, 2, 3):
+        kws += list(itertools.permutations(pool, m))
+    return [(np, k) for np in range(n + 2) for k in kws]
+
+
+def render_sig(idx: int, sig: list[tuple[int, int, bool]]) -> str:
+    parts = []
+    ret = []
+    npo = sum(1 for s in sig if s[2])
+    seen_star = False
+    for j, (k, nm, po) in enumerate(sig):
+        if k in (K_NAMED, K_NAMED_OPT) and not seen_star:
+            parts.append("*")
+            seen_star = True
+        if k == K_POS or k == K_NAMED:
+            parts.append(f"p{nm}: str")
+        elif k in (K_OPT, K_NAMED_OPT):
+            parts.append(f"p{nm}: str = 'D'")
+        elif k == K_STAR:
+            parts.append(f"*p{nm}: str")
+            seen_star = True
+        else:
+            parts.append(f"**p{nm}: str")
+        if po and j + 1 == npo:
+            parts.append("/")
+        if k == K_STAR:
+            ret.append(f"'(' + ','.join(p{nm}) + ')'")
+        elif k == K_STAR2:
+            ret.append(f"'{{' + ','.join([_kn(k) for k in p{nm}]) + '}}'")
+        else:
+            ret.append(f"p{nm}")
+    body = " + '|' + ".join(ret) if ret else "''"
+    return f"def s{idx}({', '.join(parts)}) -> str:\n    return {body}\n"
+
+
+ARG_DRIVER = '''
+import sys, json
+import margs as M
+assert M.__file__.endswith(sys.argv[1]), M.__file__
+CALLS = json.load(open("calls.json"))
+for i in range(M.NSIGS):
+    f = getattr(M, "s%d" % i)
+    out = []
+    msg = None
+    for np, kws in CALLS:
+        args = ["P%d" % j for j in range(np)]
+        kwargs = {("zz" if k == 99 else "p%d" % k): "K%d" % k for k in kws}
+        try:
+            out.append(f(*args, **kwargs))
+        except TypeError as e:
+            out.append("T")
+            if msg is None:
+                msg = str(e)
+        except BaseException as e:
+            out.append("E:" + type(e).__name__)
+    print(";".join(out))
+    print("#", msg)
+'''
+
+
+def argparse_stage(ctx: vlib.Ctx, exe: str | None, tmp: str) -> None:
+    from harness import C05_diff
+    n = ctx.n(3, 4)
+    sigs = arg_sigs(n)
+    calls = arg_calls(n)
+    ctx.cov["argparse_signatures"] = len(sigs)
+    ctx.cov["argparse_calls_per_signature"] = len(calls)
+    src = ["from typing import Final", "NSIGS: Final = %d" % len(sigs), "def _kn(k: str) -> str:", "    return '99' if k == 'zz' else k[1:]", ""]
+    for i, s in enumerate(sigs):
+        src.append(render_sig(i, s))
+    work = os.path.join(tmp, "argparse")
+    os.makedirs(os.path.join(work, "py"), exist_ok=True)
+    os.makedirs(os.path.join(work, "so"), exist_ok=True)
+    for d in ("py", "so"):
+        json.dump([[np, list(k)] for np, k in calls], open(os.path.join(work, d, "calls.json"), "w"))
+    res = C05_diff.compile_and_run(work, {"margs.py": "\n".join(src) + "\n"}, ARG_DRIVER, C05_diff.CONFIGS[0])
+    if res["status"] != "ok":
+        ctx.broke("C", "argparse module does not compile", res.get("detail", "")[-2000:])
+        return
+    (si, oi), (sc, oc) = res["interp"], res["compiled"]
+    if si != 0 or sc != 0:
+        ctx.broke("C", "argparse driver failed", (oi if si else oc)[-2000:])
+        return
+    li, lc = oi.splitlines(), oc.splitlines()
+    if len(li) != 2 * len(sigs) or len(lc) != 2 * len(sigs):
+        ctx.broke("C", "argparse driver output", f"{len(li)} / {len(lc)} lines for {len(sigs)} signatures")
+        return
+    # model
+    model: dict[str, list[list[str]]] = {}
+    if exe is not None:
+        for which in ("w", "g", "p", "c"):
+            lines = []
+            for s in sigs:
+                ps = f"{len(s)} " + " ".join(f"{k} {nm} {int(po)}" for k, nm, po in s)
+                for np, kws in calls:
+                    lines.append(f"ap {which} {ps} {np} {len(kws)} " + " ".join(map(str, kws)))
+            out = run_driver(exe, lines)
+            model[which] = [out[i * len(calls):(i + 1) * len(calls)] for i in range(len(sigs))]
+    bad = {"compiled-vs-model": 0, "interp-vs-reference": 0, "general-vs-wrapper": 0, "c12-accept": 0}
+    posonly_diff = 0
+    nontriv = 0
+    msg_examples = []
+    for i, s in enumerate(sigs):
+        ri, rc = li[2 * i].split(";"), lc[2 * i].split(";")
+        has_po = any(po for _, _, po in s)
+        sig_txt = render_sig(i, s).split("\n")[0]
+        if li[2 * i + 1] != lc[2 * i + 1] and len(msg_examples) < 3 and lc[2 * i + 1] != "# None":
+            msg_examples.append({"def": sig_txt, "cpython": li[2 * i + 1][2:], "compiled": lc[2 * i + 1][2:]})
+        for j, (np, kws) in enumerate(calls):
+            call_txt = f"{sig_txt}  called with {np} positional and keywords {list(kws)}"
+            if rc[j] != "T":
+                nontriv += 1
+            if model:
+                if model["w"][i][j] != rc[j]:
+                    bad["compiled-vs-model"] += 1
+                    if bad["compiled-vs-model"] <= 3:
+                        ctx.broke("C", "compiled wrapper vs Coq parse_wrapper", f"{call_txt}: compiled {rc[j]} model {model['w'][i][j]}")
+                if model["p"][i][j] != ri[j]:
+                    bad["interp-vs-reference"] += 1
+                    if bad["interp-vs-reference"] <= 3:
+                        ctx.broke("C", "CPython vs Coq py_bind (the reference)", f"{call_txt}: CPython {ri[j]} py_bind {model['p'][i][j]}")
+                if model["g"][i][j] != model["w"][i][j]:
+                    bad["general-vs-wrapper"] += 1
+                    if bad["general-vs-wrapper"] <= 3:
+                        ctx.broke("C", "model: fast path differs from general path", call_txt)
+                if (model["c"][i][j] == "T") != (ri[j] == "T"):
+                    bad["c12-accept"] += 1
+                    if bad["c12-accept"] <= 3:
+                        ctx.broke("C", "CPython vs C12 cpython_bind", f"{call_txt}: CPython {ri[j]} cpython_bind {model['c'][i][j]}")
+            if ri[j] != rc[j]:
+                if has_po:
+                    posonly_diff += 1
+                    ctx.violation("wrapper-ignores-positional-only",
+                                  f"compiled wrapper binds keywords to positional-only parameters: {call_txt}: CPython {ri[j]}, compiled {rc[j]}",
+                                  {"kind": "argparse", "def": sig_txt, "npos": np, "kws": list(kws), "cpython": ri[j], "compiled": rc[j]})
+                else:
+                    ctx.violation(f"argparse:{sig_txt}:{np}:{list(kws)}", f"argument binding differs: {call_txt}: CPython {ri[j]}, compiled {rc[j]}",
+                                  {"kind": "argparse", "def": sig_txt, "npos": np, "kws": list(kws), "cpython": ri[j], "compiled": rc[j]})
+    ctx.add("evaluations", len(sigs) * len(calls))
+    ctx.add("traces_validated_against_impl", len(sigs) * len(calls))
+    ctx.cov["argparse_cases"] = len(sigs) * len(calls)
+    ctx.cov["argparse_cases_accepted"] = nontriv
+    ctx.cov["argparse_mismatches"] = bad
+    ctx.cov["argparse_posonly_differences"] = posonly_diff
+    ctx.cov["argparse_typeerror_messages_differ_examples"] = msg_examples
+    ctx.log(f"(c) {len(sigs)} signatures x {len(calls)} calls: {bad}, positional-only differences {posonly_diff}")
